@@ -5,6 +5,7 @@ is characterised declaratively (`authorized_iff`), shown sound for the file-leve
 -/
 import SwV.Model.C34
 import SwV.Spec.C34
+import SwV.Gen.C34
 namespace SwV.Props.C34
 open SwV.Model.C34 SwV.Spec.C34
 
@@ -163,5 +164,17 @@ theorem read_touches_nothing {σ : Type} (cfg : Cfg) (method : String) (path qjw
   obtain ⟨vid, fid⟩ := p
   dsimp only
   split <;> simp [h]
+
+/-! ## bridges: the modelled functions are pinned to the source text they were read from (regenerated on every check) -/
+
+/-- an edit of any of these functions (e.g. moving the check after the Store access) breaks this obligation -/
+theorem bridge_source_pins :
+    SwV.Gen.C34.src_maybeCheckJwtAuthorization = "a7aaa84ea0076d91" ∧
+    SwV.Gen.C34.src_GetJwt = "5dd17d49c931ebea" ∧
+    SwV.Gen.C34.src_DecodeJwt = "bbd47ba7b5469b39" ∧
+    SwV.Gen.C34.src_parseURLPath = "7944ea4a4dd4abde" ∧
+    SwV.Gen.C34.src_PostHandler = "d71ebc4b835f65ab" ∧
+    SwV.Gen.C34.src_DeleteHandler = "77decf1f3bbb4b4c" := by
+  decide
 
 end SwV.Props.C34
